@@ -60,6 +60,9 @@ pub fn unhex(s: &str) -> Vec<u8> {
 pub enum Mode {
     Rand(u64),
     Arb(Vec<u8>),
+    /// no seed: `generate()` seeds its PRNG from the operating system (what the CLI does without `--seed`);
+    /// not reproducible, so only the oracle stream uses it — the structural properties hold for every seed
+    Os,
 }
 
 #[derive(Clone, Debug)]
@@ -107,10 +110,12 @@ impl Case {
         let mode = match &self.mode {
             Mode::Rand(s) => format!("rand:{}", s),
             Mode::Arb(b) => format!("arb:{}", if b.is_empty() { "-".to_string() } else { hex(b) }),
+            Mode::Os => "os".to_string(),
         };
         format!(
-            "id={} P={} unsafe={} mu={} ext={} buf={} min={} max={} mask={}{} rate={:016x} warm={} mode={}",
+            "id={}{} P={} unsafe={} mu={} ext={} buf={} min={} max={} mask={}{} rate={:016x} warm={} mode={}",
             self.id,
+            if self.raw() { " raw=1" } else { "" },
             self.proto,
             self.unsafe_m as u8,
             self.mu as u8,
@@ -174,6 +179,8 @@ impl Case {
                         c.mode = Mode::Rand(s.parse().ok()?);
                     } else if let Some(h) = v.strip_prefix("arb:") {
                         c.mode = Mode::Arb(if h == "-" { vec![] } else { unhex(h) });
+                    } else if v == "os" {
+                        c.mode = Mode::Os;
                     }
                 }
                 _ => {}
@@ -196,12 +203,33 @@ impl Case {
             .collect()
     }
 
+    /// every 11th case configures the generator through its public fields instead of the builder
+    pub fn raw(&self) -> bool {
+        self.id % 11 == 10
+    }
+
     /// the configured generator.  The public builder offers several equivalent routes to one configuration
     /// (`with_opcode_range` or the two single setters in either order, `with_mutators` or repeated `with_mutator`,
     /// any order of the builder calls); which route is taken is derived from the case id, so that a builder whose
     /// effect depends on the route or on the order of the calls shows up as a wrong configuration.
     pub fn generator(&self) -> Generator {
         let mut g = Generator::new(Version::try_from(self.proto).unwrap());
+        if self.raw() {
+            // the configuration written straight into the public fields: no builder, hence no clamping of the rate
+            // (C09 quantifies over out-of-range rates), and a used output buffer left behind by the caller
+            g.min_opcodes = self.min;
+            g.max_opcodes = self.max;
+            g.mutators = self.mutators();
+            g.mutation_rate = f64::from_bits(self.rate_bits);
+            g.unsafe_mutations = self.unsafe_m;
+            g.allow_ext_opcodes = self.ext;
+            g.allow_buffer_opcodes = self.buf;
+            if let Mode::Rand(s) = &self.mode {
+                g.seed = Some(*s);
+            }
+            g.output.extend_from_slice(b"left over by the caller");
+            return g;
+        }
         let route = self.id % 6;
         // builder steps: 0 range, 1 mutators, 2 unsafe, 3 ext, 4 buffer, 5 rate, 6 seed
         let mut order: Vec<usize> = (0..7).collect();
@@ -249,7 +277,7 @@ impl Case {
 
     pub fn run_on(&self, g: &mut Generator) -> Result<Vec<u8>, String> {
         let r = catch_unwind(AssertUnwindSafe(|| match &self.mode {
-            Mode::Rand(_) => g.generate(),
+            Mode::Rand(_) | Mode::Os => g.generate(),
             Mode::Arb(b) => g.generate_from_arbitrary(b),
         }));
         match r {
@@ -549,7 +577,10 @@ fn cmd_oracle(args: &[String]) {
     let unsafe_sel = arg_val(args, "--unsafe", "0");
     let mut rng = Rng(seed);
     for id in 0..n {
-        let c = sample_case(&mut rng, id, profile, unsafe_sel);
+        let mut c = sample_case(&mut rng, id, profile, unsafe_sel);
+        if id % 16 == 7 && matches!(c.mode, Mode::Rand(_)) && c.warm == 0 {
+            c.mode = Mode::Os;
+        }
         match c.run() {
             Ok(out) => println!("oracle {} result=ok:{}", c.line(), hex(&out)),
             Err(e) => println!("oracle {} result={}", c.line(), e),
